@@ -55,6 +55,8 @@
                      (MetaModel.extract_impl = XPanic)
     48  sink         get_template_contents on something that is not a template element (RcDom panics)
     90  model artefact: a dispatch index without an arm body (heads / bodies length mismatch)
+    99  GHOST assertion, not in html5ever: the shape assumption of the no-panic proof
+        (TreeModelRules.shape_check / hshape_b)
    Not modelled: mod.rs:302,314 (dump_state, dead code); RefCell double borrows
    (no sink call re-enters the tree builder); `len() - 1` at mod.rs:983,1030
    (the vector was just seen non-empty) and mod.rs:1580 (wraps silently in
